@@ -5,17 +5,6 @@ import ZvbiModel.Net.LemmasGlitch
 namespace Zvbi.Net
 open Zvbi.Hamm Zvbi.Codec Zvbi.Gen
 
-theorem Silent_nil : Silent [] := by intro e he; cases he
-
-theorem Silent_append {a b : List Ev} (ha : Silent a) (hb : Silent b) : Silent (a ++ b) := by
-  intro e he
-  rcases List.mem_append.mp he with h | h
-  · exact ha e h
-  · exact hb e h
-
-theorem Silent_extra {extra : List Ev} (h : ∀ e ∈ extra, Ev.isExtra e = true) : Silent extra :=
-  fun e he => extra_not_network e (h e he)
-
 theorem xdsStrfu_same (old buf : List Nat) (h : (xdsStrfu old buf).2 = false) : (xdsStrfu old buf).1 = old := by
   simp only [xdsStrfu] at h ⊢
   simpa using h
@@ -47,12 +36,19 @@ theorem RegularFrom_tail (time : Nat) (a : Atom) (as : List Atom) (h : RegularFr
   all_goals exact h
 
 /-- one atom of a stable history: nothing announced, record / countdown / mask unchanged, no page lost -/
-theorem stable_step (cfg : Cfg) (n : Network) (mask : Nat) (hn : n.cycle ≠ 1) (s : State) (a : Atom) (as : List Atom)
-    (hnet : s.net = n) (hcd : s.chswcd = 0) (hm : s.mask = mask)
+theorem stable_step (cfg : Cfg) (n : Network) (d : Deb) (mask : Nat) (hn : n.cycle ≠ 1)
+    (hnp : ∀ c, cfg.perCarrier = true → cycOf c d ≠ 1) (s : State) (a : Atom) (as : List Atom)
+    (hnet : s.net = n) (hdeb : s.deb = d) (hcd : s.chswcd = 0) (hm : s.mask = mask)
     (hreg : RegularFrom s.time (a :: as)) (hqa : SameAsStored n mask a) :
     Silent (stepAtom cfg s a).2 ∧ (stepAtom cfg s a).1.net = n ∧ (stepAtom cfg s a).1.chswcd = 0 ∧
     (stepAtom cfg s a).1.mask = mask ∧ (stepAtom cfg s a).1.time = timeAfter s.time a ∧
-    s.cached ⊆ (stepAtom cfg s a).1.cached := by
+    s.cached ⊆ (stepAtom cfg s a).1.cached ∧ (stepAtom cfg s a).1.deb = d := by
+  have np : ∀ c, ¬ pending cfg c s := by
+    intro c
+    unfold pending
+    split
+    · rename_i hp; rw [hdeb]; exact hnp c hp
+    · rw [hnet]; exact hn
   cases a with
   | mask m => exact absurd hqa (by simp [SameAsStored])
   | chsw => exact absurd hqa (by simp [SameAsStored])
@@ -60,7 +56,7 @@ theorem stable_step (cfg : Cfg) (n : Network) (mask : Nat) (hn : n.cycle ≠ 1) 
     simp only [RegularFrom] at hreg
     have hp := prologue_regular s t hcd hreg.1
     simp only [stepAtom, hp, timeAfter]
-    refine ⟨Silent_nil, hnet, hcd, hm, ?_, List.Subset.refl _⟩
+    refine ⟨Silent_nil, hnet, hcd, hm, ?_, List.Subset.refl _, hdeb⟩
     first | rfl | trivial
   | line t l =>
     simp only [stepAtom, timeAfter]
@@ -71,17 +67,18 @@ theorem stable_step (cfg : Cfg) (n : Network) (mask : Nat) (hn : n.cycle ≠ 1) 
         simp only [rxLine]
         exact rxXds_same _ s ty bytes (by rw [hnet]; exact hn) (by rw [hnet]; exact hqa.1) (by rw [hnet]; exact hqa.2)
       rw [e]
-      exact ⟨Silent_nil, hnet, hcd, hm, rfl, List.Subset.refl _⟩
+      exact ⟨Silent_nil, hnet, hcd, hm, rfl, List.Subset.refl _, hdeb⟩
     | wss b0 b1 =>
       have k := rxWss_keeps s b0 b1 t
-      refine ⟨fun e he => k.2.2.2.2.2 e he, k.1.trans hnet, k.2.2.1.trans hcd, k.2.2.2.1.trans hm, k.2.2.2.2.1, ?_⟩
+      refine ⟨fun e he => k.2.2.2.2.2 e he, k.1.trans hnet, k.2.2.1.trans hcd, k.2.2.2.1.trans hm, k.2.2.2.2.1, ?_,
+        (rxWss_deb s b0 b1 t).trans hdeb⟩
       have hc : (rxLine cfg t s (.wss b0 b1)).1.cached = s.cached := k.2.1
       rw [hc]; exact List.Subset.refl _
     | page pgno =>
       rcases (rxLine_page cfg t s pgno) with e | e
-      · rw [e]; exact ⟨Silent_nil, hnet, hcd, hm, rfl, List.Subset.refl _⟩
+      · rw [e]; exact ⟨Silent_nil, hnet, hcd, hm, rfl, List.Subset.refl _, hdeb⟩
       · rw [e]
-        refine ⟨Silent_nil, hnet, hcd, hm, rfl, ?_⟩
+        refine ⟨Silent_nil, hnet, hcd, hm, rfl, ?_, hdeb⟩
         intro x hx
         simp only []
         split
@@ -93,39 +90,43 @@ theorem stable_step (cfg : Cfg) (n : Network) (mask : Nat) (hn : n.cycle ≠ 1) 
       have hv : decodeVpsCni b = cniOf .vps s.net := by
         simp only [SameAsStored] at hqa
         rw [hnet]; exact hqa .vps (decodeVpsCni b) (by simp [lineCni])
-      have e := cniRx_idle cfg.lk .vps (decodeVpsCni b) s hv (by rw [hnet]; exact hn)
-      simp only [lineCni, cniStep, e] at k hev
-      refine ⟨?_, k.1.trans hnet, k.2.2.1.trans hcd, k.2.2.2.1.trans hm, k.2.2.2.2.1, ?_⟩
+      have kd := rxLine_cniStep_deb cfg t s (.vps b) (Or.inl ⟨b, rfl⟩)
+      have e := cniRx_idle cfg .vps (decodeVpsCni b) s hv (np .vps)
+      simp only [lineCni, cniStep, e] at k hev kd
+      refine ⟨?_, k.1.trans hnet, k.2.2.1.trans hcd, k.2.2.2.1.trans hm, k.2.2.2.2.1, ?_, kd.trans hdeb⟩
       · rw [hev]; exact Silent_append Silent_nil (Silent_extra hex)
       · rw [k.2.1]; exact List.Subset.refl _
     | ttx b =>
       have k := rxLine_cniStep cfg t s (.ttx b) (Or.inr ⟨b, rfl⟩)
       obtain ⟨extra, hev, hex⟩ := k.2.2.2.2.2.2.2.2
-      have hs : cniStep cfg.lk s (lineCni s.mask (.ttx b)) = (s, []) := by
+      have hs : cniStep cfg s (lineCni s.mask (.ttx b)) = (s, []) := by
         cases hq' : lineCni s.mask (.ttx b) with
         | none => rfl
         | some p =>
           obtain ⟨c, v⟩ := p
           simp only [SameAsStored] at hqa
           have hv : v = cniOf c s.net := by rw [hnet]; exact hqa c v (by rw [← hm]; exact hq')
-          exact cniRx_idle cfg.lk c v s hv (by rw [hnet]; exact hn)
-      rw [hs] at k hev
-      refine ⟨?_, k.1.trans hnet, k.2.2.1.trans hcd, k.2.2.2.1.trans hm, k.2.2.2.2.1, ?_⟩
+          exact cniRx_idle cfg c v s hv (np c)
+      have kd := rxLine_cniStep_deb cfg t s (.ttx b) (Or.inr ⟨b, rfl⟩)
+      rw [hs] at k hev kd
+      refine ⟨?_, k.1.trans hnet, k.2.2.1.trans hcd, k.2.2.2.1.trans hm, k.2.2.2.2.1, ?_, kd.trans hdeb⟩
       · rw [hev]; exact Silent_append Silent_nil (Silent_extra hex)
       · rw [k.2.1]; exact List.Subset.refl _
 
 /-- a stable history: nothing announced, record unchanged, countdown idle, and a page once cached stays cached -/
-theorem stable_run (cfg : Cfg) (n : Network) (mask : Nat) (hn : n.cycle ≠ 1) :
-    ∀ (atoms : List Atom) (s : State), s.net = n → s.chswcd = 0 → s.mask = mask →
+theorem stable_run (cfg : Cfg) (n : Network) (d : Deb) (mask : Nat) (hn : n.cycle ≠ 1)
+    (hnp : ∀ c, cfg.perCarrier = true → cycOf c d ≠ 1) :
+    ∀ (atoms : List Atom) (s : State), s.net = n → s.deb = d → s.chswcd = 0 → s.mask = mask →
       RegularFrom s.time atoms → (∀ a ∈ atoms, SameAsStored n mask a) →
       Silent (runAtoms cfg s atoms).2 ∧ (runAtoms cfg s atoms).1.net = n ∧ (runAtoms cfg s atoms).1.chswcd = 0 ∧
       (runAtoms cfg s atoms).1.mask = mask ∧
-      (∀ q1 q2, atoms = q1 ++ q2 → (runAtoms cfg s q1).1.cached ⊆ (runAtoms cfg s atoms).1.cached) := by
+      (∀ q1 q2, atoms = q1 ++ q2 → (runAtoms cfg s q1).1.cached ⊆ (runAtoms cfg s atoms).1.cached) ∧
+      (runAtoms cfg s atoms).1.deb = d := by
   intro atoms
   induction atoms with
   | nil =>
-    intro s h hcd hm _ _
-    refine ⟨Silent_nil, h, hcd, hm, ?_⟩
+    intro s h hd hcd hm _ _
+    refine ⟨Silent_nil, h, hcd, hm, ?_, hd⟩
     intro q1 q2 e
     have : q1 = [] := by
       cases q1 with
@@ -133,22 +134,22 @@ theorem stable_run (cfg : Cfg) (n : Network) (mask : Nat) (hn : n.cycle ≠ 1) :
       | cons x xs => simp at e
     rw [this]; exact List.Subset.refl _
   | cons a as ih =>
-    intro s hnet hcd hm hreg hq
-    have st := stable_step cfg n mask hn s a as hnet hcd hm hreg (hq a (List.mem_cons_self ..))
-    have r := ih (stepAtom cfg s a).1 st.2.1 st.2.2.1 st.2.2.2.1
+    intro s hnet hd hcd hm hreg hq
+    have st := stable_step cfg n d mask hn hnp s a as hnet hd hcd hm hreg (hq a (List.mem_cons_self ..))
+    have r := ih (stepAtom cfg s a).1 st.2.1 st.2.2.2.2.2.2 st.2.2.1 st.2.2.2.1
       (by rw [st.2.2.2.2.1]; exact RegularFrom_tail s.time a as hreg)
       (fun x hx => hq x (List.mem_cons_of_mem _ hx))
     simp only [runAtoms]
-    refine ⟨Silent_append st.1 r.1, r.2.1, r.2.2.1, r.2.2.2.1, ?_⟩
+    refine ⟨Silent_append st.1 r.1, r.2.1, r.2.2.1, r.2.2.2.1, ?_, r.2.2.2.2.2⟩
     intro q1 q2 e
     cases q1 with
     | nil =>
       simp only [runAtoms]
-      exact List.Subset.trans st.2.2.2.2.2 (r.2.2.2.2 [] as rfl)
+      exact List.Subset.trans st.2.2.2.2.2.1 (r.2.2.2.2.1 [] as rfl)
     | cons x xs =>
       simp only [List.cons_append, List.cons.injEq] at e
       rw [← e.1]
       simp only [runAtoms]
-      exact r.2.2.2.2 xs q2 e.2
+      exact r.2.2.2.2.1 xs q2 e.2
 
 end Zvbi.Net
